@@ -16,7 +16,7 @@ RULE = (
     "GTF importer (inference off). Shards: A and B x 13 call forms x (for A) the query start; T x forms {kwargs, all_features, "
     "children} x query start; G x the 10 forms other than children/parents/interleaved. Per shard every query end >= start x "
     "completely_within x strand {None,'+'} (B, G also '.') x featuretype {None,'exon',('exon','gene')}. Call forms: region by kwargs, "
-    "tuple, string (the strand written into it, 'seqid:start-end:strand', when given with completely_within), Feature (also one moved "
+    "tuple, string (the strand written into it, 'seqid:start-end:strand', when given with completely_within; for the widest interval also the string naming the sequence only), Feature (also one moved "
     "to the interval after construction), seqid omitted, start only, end only, limit= of all_features (tuple and string), "
     "features_of_type, children, parents (limit as tuple or string), and two region() results consumed interleaved. Each answer is "
     "compared with a brute-force scan (region(Feature) accepted under both strand readings), must contain no feature twice (R and L "
